@@ -381,6 +381,11 @@ class HomeKitConnection:
             await self._connector
         except asyncio.CancelledError:
             pass
+        except Exception as ex:
+            # The connector already finished with an error (for example an
+            # authentication failure, available via last_connector_error);
+            # closing must still complete.
+            logger.debug("%s: Connector had failed with: %s", self.name, ex)
 
     async def get(self, target: str) -> HttpResponse:
         """
